@@ -86,20 +86,20 @@ def run(spec, env):
 
 
 def _count_values(spec, log, throttle_tid):
-    """Per hand-over admission limit for dynamic counts: list of (seq, value-in-force) from the
-    count calls made by the hand-over thread; a raising call keeps the last good value."""
-    seqv = spec["layers"][0]["count"]["seq"]
+    """Per hand-over admission limits for dynamic counts.  The executor keeps ONE 'last value'
+    shared by the hand-over thread and by submit() callers, so the limit in force for an
+    iteration of the hand-over thread is some value the count callable returned to the executor
+    (to any thread) from that iteration's own call onwards - or, if that call raised, the last
+    good value before it.  Returns [(seq of the hand-over thread's call, seq, value), ...] of all
+    count events so that check() can take the most permissive admissible value."""
     out = []
     last_good = None
-    n = 0
     for e in log:
         if e[3] == "ufn" and e[4] == "count":
             v = e[6]
-            n += 1
             if v != "raise":
                 last_good = v
-            if e[2] == throttle_tid:
-                out.append((e[0], last_good if v == "raise" else v))
+            out.append((e[0], e[2] == throttle_tid, last_good if v == "raise" else v))
     return out
 
 
@@ -145,10 +145,11 @@ def check(spec, env):
         if static:
             v = count
         else:
-            prior = [x for x in dyn if x[0] < h[0]]
-            if not prior:
+            own = [x for x in dyn if x[0] < h[0] and x[1]]
+            if not own:
                 continue
-            v = prior[-1][1]
+            cands = [x[2] for x in dyn if own[-1][0] <= x[0] < h[0]]
+            v = None if any(c is None for c in cands) else max(cands)
         if v is not None and inflight >= v:
             out.append({"oracle": "over-limit", "sig": "over-limit|%s|%s" % (kind, mode),
                         "msg": "hand-over of %s (submission %r) while %d earlier futures had certainly not finished; limit in force %r (count spec %r)"
